@@ -210,6 +210,9 @@ fn pool(args: &Args) {
     for (o, t) in gen::boundary_families(thorough) {
         put(&o, &t, &mut w);
     }
+    for (o, t) in p::c08::typed_family(seed) {
+        put(&o, &t, &mut w);
+    }
     w.flush().unwrap();
     eprintln!("pool: {n} entries");
 }
